@@ -90,7 +90,7 @@ func init() {
 	register(&Check{
 		ID:    "C10",
 		Level: "model_checking",
-		Rule: "the deterministic VM is run to completion under a step monitor (hook H1 counts executed instructions = transitions of the VM configuration sequence) on every nullable-body program of <= n nodes over {'a', (), line start, file end, not word end, not word start, line end, not in 'a'} x {maybe, at least 0, at most 2 (greedy and fewest), at least 1, exactly 2} x or/groups, plus fixed nested/recursive/named-loop programs (incl. stored patterns using stored patterns twice) and replace commands whose `with` list names loops, unbound names and captures of untaken alternatives (the replacer's own instruction loop is covered by the CPU-time watchdog), x every text over {a,\\n} up to length 4; " +
+		Rule: "the deterministic VM is run to completion under a step monitor (hook H1 counts executed instructions = transitions of the VM configuration sequence) on every nullable-body program of <= n nodes over {'a', (), line start, file end, not word end, not word start, line end, not in 'a'} x {maybe, at least 0, at most 2 (greedy and fewest), at least 1, exactly 2} x or/groups, plus fixed nested/recursive/named-loop programs (incl. stored patterns using stored patterns twice) and replace commands whose `with` list names loops, unbound names and captures of untaken alternatives (the replacer's own instruction loop is covered by the CPU-time watchdog), x every text over {a,\\n} up to length 4 and six texts with bytes >= 0x80 (lone continuation bytes, a 2-byte character, 0xff); " +
 			fmt.Sprintf("a run that executes more than %d instructions or makes no progress for 20 s is a violation; states = executed VM configurations, transitions = instructions executed; non-trivial = runs whose program has a loop with a nullable body", stepBudgetC10),
 		Assume: []string{"budget is ~500x above the largest legitimate step count of the enumerated scope (reported as maxima.vm_steps_per_run)", "loops outside the VM instruction loop are covered by the 20 s per-unit watchdog only"},
 		Budget: map[string]int{"quick": 150, "thorough": 1500},
@@ -178,7 +178,8 @@ func nullableT(t *T) bool {
 func runC10(c *Ctx) {
 	installStepHook()
 	defer flushInstKinds(c)
-	txts := texts("a\n", 4)
+	// bytes that cannot start a UTF-8 sequence, and a character cut in two: the scan steps over any byte
+	txts := append(texts("a\n", 4), "a\x80a", "\x80", "1\xc3\xa92", "\xa3a", "\xff\xfe", "a\xf8")
 	g := gramD7()
 	for n := 1; n <= c.Pick(4, 5); n++ {
 		if !c.Level("D7:n=" + itoa(n)) {
@@ -236,7 +237,7 @@ func runC10(c *Ctx) {
 		}
 	}
 	if c.Level("D7:fixed") {
-		long := append(texts("a\n", 5), "aaaaaa", "a\na\na\n", "aaa\n\n\naaa")
+		long := append(texts("a\n", 5), "aaaaaa", "a\na\na\n", "aaa\n\n\naaa", "a\x80a", "1\xc3\xa92", "\xa35 a", "\xff", "a\xf8\x80", "\xc3\xa9\n\xbf")
 		for _, p := range d7Fixed() {
 			src := p.Source("find all")
 			if c.Unit(func() string { return src }) {
